@@ -64,7 +64,7 @@ def run(tier):
     out = tlc_out(ck, wd, "HintVMMC", "HintVMMC_arith.cfg", "vm_arith")
     strict(ck, "vm:extreme-operands", "fv-total", ["c02", "vm", "--huge", "--programs", out, "--out", os.path.join(wd, "a.ndjson")])
     os.remove(out)
-    out = tlc_out(ck, wd, "HintVMMC", "HintVMMC_quick.cfg" if q else "HintVMMC_thorough.cfg", "vm_ctrl", xmx="16g", workers=12)
+    out = tlc_out(ck, wd, "HintVMMC" if q else "HintVMMCT", "HintVMMC_quick.cfg" if q else "HintVMMCT_thorough.cfg", "vm_ctrl", xmx="16g", workers=12)
     strict(ck, "vm:control-flow", "fv-total", ["c02", "vm", "--programs", out, "--out", os.path.join(wd, "b.ndjson")])
     os.remove(out)
     out = tlc_out(ck, wd, "CompositeMC", "CompositeMC_real.cfg", "comp_real")
@@ -89,7 +89,7 @@ def run(tier):
         strict(ck, "read-mutations", "fv-total", ["c01", "mutate", "--sessions", side, "--muts", muts, "--drive-every", 6, "--out", os.path.join(wd, "e.ndjson")])
     seeds = [vlib.seed() + i for i in range(2 if q else 10)]
     for s in seeds:
-        strict(ck, "api-drive:%d" % s, "fv-total", ["c02", "corpus", "--seed", s, "--mutations", 24 if q else 80, "--field-stride", 18 if q else 3, "--wide-stride", 5 if q else 1, "--out", os.path.join(wd, "f.ndjson")])
+        strict(ck, "api-drive:%d" % s, "fv-total", ["c02", "corpus", "--seed", s, "--mutations", 24 if q else 80, "--field-stride", 18 if q else 3, "--wide-stride", 3 if q else 1, "--out", os.path.join(wd, "f.ndjson")])
     s0 = vlib.seed()
     strict(ck, "glyf", "fv-write", ["c09", "random", "--seed", s0, "--n", 200 if q else 1500, "--out", os.path.join(wd, "g.ndjson")])
     strict(ck, "gvar", "fv-write", ["c10", "random", "--seed", s0, "--n", 150 if q else 800, "--out", os.path.join(wd, "h.ndjson")])
